@@ -66,6 +66,32 @@ def validity_case(name, spec):
                         res["extra"]["descriptor_fields_compared"] += 1
                         if got is not None and got < n:
                             res["violations"].append({"key": f"{name}:carray:{itd.integral_type}:{arr}", "what": f"{itd.integral_type} kernel declares {arr} = numba.carray(_, ({got})) but the contract passes {n} entries and the kernel's layout needs them", "replay": None})
+        # memory safety of the numba text: every access site against the contract extents AND the declared views (QF_LIA)
+        from vlib import eqcheck
+        from vlib.kernelprops import NPERM, contract_extents, site_queries
+        from vlib.formcheck import entity_configs
+        st = eqcheck.QStats()
+        for itd in fref.fd.integral_data:
+            itype = itd.integral_type
+            cellname = itd.domain.ufl_cell().cellname
+            ext = contract_extents(fref, itd)
+            for sid in sid_list(itd):
+                for kn in fp.kernels_for(itype, sid):
+                    dp = mp.integrals[kn]
+                    k = mp.kernels[dp.kernel_name]
+                    fc = dp.domain if itype in ("exterior_facet", "interior_facet") else None
+                    ents = sorted({e[0] for e in entity_configs(itype, cellname, "thorough", fc)})
+                    nperm = NPERM.get(fc, 1) if itype == "interior_facet" else 1
+                    for label, extents in (("contract", ext), ("declared view", {a: min(ext.get(a, 10**9), k.declared_sizes.get(a, 10**9)) for a in ext})):
+                        out, n = site_queries(k, extents, ents, nperm, st, lang="py")
+                        res["extra"]["numba_access_sites"] = res["extra"].get("numba_access_sites", 0) + n
+                        for desc, verdict, mdl in out:
+                            if verdict == "sat":
+                                res["violations"].append({"key": f"{name}:numba-bounds:{itype}:{desc.split(' line')[0]}:{label}",
+                                                          "what": f"numba kernel {desc}: index {mdl['_index']} outside {label} extent {mdl['_shape']}", "replay": None})
+                            elif verdict != "unsat":
+                                res["inconclusive"].append(f"{name}: numba site {desc}: {verdict}")
+        res["queries"] = st.q
         res["samples"].append({"form": name, "numba_kernels": len(mp.kernels), "imports": sorted(mp.imports)})
     except gen.Rejected as e:
         res["outside"].append(f"{name}: rejected: {e}")
